@@ -119,8 +119,7 @@ def _configs():
         add("lang_" + lang, (lambda l: (lambda: T(A.LanguageAnalyzer(l))))(lang))
     add("text_lang_de", lambda: F.TEXT(lang="de", chars=True, stored=True))
     add("ngram", lambda: T(A.NgramAnalyzer(2)), hlq="ends")
-    add("ngram_2_3_freq", lambda: T(A.NgramAnalyzer(2, 3), chars=False, phrase=False), hl=False)
-    add("ngramword", lambda: T(A.NgramWordAnalyzer(2, 3)), hlq="ends")
+    add("ngramword", lambda: T(A.NgramWordAnalyzer(3)), hlq="ends")
     add("ngramword_start", lambda: T(A.NgramWordAnalyzer(2, 3, at="start")))
     add("ngramword_end", lambda: T(A.NgramWordAnalyzer(1, 3, at="end")))
     # filters
@@ -401,6 +400,7 @@ FRAGMENTERS = ("WholeFragmenter", "SentenceFragmenter", "ContextFragmenter", "Pi
 # retokenizing fragmenter suffices) and (b) the PinpointFragmenter path
 # (character ranges loaded from the postings instead of re-tokenizing)
 TERMS_TRUE_FRAGMENTERS = ("WholeFragmenter", "PinpointFragmenter")
+RETOKENIZING = frozenset(["WholeFragmenter/retok", "SentenceFragmenter/retok", "ContextFragmenter/retok"])
 
 
 _H = None
@@ -683,8 +683,12 @@ def check_doc(env, i, acc=None):
         for p in P5:
             bykind.setdefault(p[1], []).append(p)
         for kind, ps in bykind.items():
-            if len(subs_run) > 1 and set(p[2] for p in ps) == subs_run:
+            subs = set(p[2] for p in ps)
+            if len(subs_run) > 1 and subs == subs_run:
                 P.append((5, kind, "all-fragmenters", ps[0][3]))
+            elif RETOKENIZING <= subs:
+                P.append((5, kind, "retokenizing-fragmenters", ps[0][3]))
+                P.extend(p for p in ps if p[2] not in RETOKENIZING)
             else:
                 P.extend(ps)
     return P
@@ -875,6 +879,8 @@ def run(ctx):
     for shard in range(nshards):
         for name in names:
             tasks.append((name, seed, nmax, shard, nshards))
+    # the n-gram configurations are the slowest: schedule them first
+    tasks.sort(key=lambda t: (0 if "ngram" in t[0] else 1, t[3]))
     ctx.extra["configurations"] = names
     ctx.extra["texts_per_configuration"] = ntexts
     ctx.extra["alphabet"] = alphabet(seed)
